@@ -31,6 +31,10 @@ def run(ctx):
     d_markers(ctx, flows)
     e_options_injected(ctx)
     c_reply_assembly(ctx)
+    d_nested_rail_cursor(ctx)
+    b_retrieval_reentry(ctx, flows)
+    b_event_budget(ctx)
+    c_tracing_unwrap(ctx)
 
 
 def a_tables(ctx, flows):
@@ -365,8 +369,129 @@ def c_reply_assembly(ctx):
     for l in loops:
         ev = src(l.target)
         cond = [i for i in ast.walk(l) if isinstance(i, ast.If) and re.search(r"%s\[[\"']script[\"']\]" % re.escape(ev), src(i.test))]
+        # a value test is acceptable only in conjunction with the bot INTENT the message belongs to (a channel only flows control):
+        # a variable assigned from the `intent` of BotIntent events in the same loop
+        intent_vars = {src(a.targets[0]) for a in ast.walk(l) if isinstance(a, ast.Assign) and re.search(r"%s\[[\"']intent[\"']\]" % re.escape(ev), src(a.value))}
+        def _guarded(i):
+            te = i.test
+            return isinstance(te, ast.BoolOp) and isinstance(te.op, ast.And) and any(
+                isinstance(v, ast.Compare) and isinstance(v.ops[0], ast.Eq) and (src(v.left) in intent_vars or src(v.comparators[0]) in intent_vars) for v in te.values)
+        cond = [i for i in cond if not _guarded(i)]
         ok = not cond
         ctx.check("C16.c.reply-assembly", LLMRAILS, "LLMRails.generate_async", first_line(cond[0].test, 70) if cond else "responses.append(%s[\"script\"])" % ev, ok,
-                  "every uttered script is appended to the reply regardless of its value" if ok else
+                  "every uttered script is appended to the reply regardless of its value (a command text is only honoured together with the bot intent that asks for it)" if ok else
                   "the reply assembly tests the VALUE of an uttered script (`%s`): a user text (echoed by an input-only call), a supplied bot message or an LLM answer equal to that magic string is "
                   "not returned but deletes the previous part of the reply" % first_line(cond[0].test, 60), line=(cond[0].lineno if cond else l.lineno))
+
+
+def d_nested_rail_cursor(ctx):
+    """The log attributes actions and the final `stop` to the rail whose bracket is open.  It keeps ONE cursor; output rails can run while an input rail is still open (the
+    input rail's refusal is LLM-written, so it passes the output rails).  A Start*Rail marker that overwrites a non-empty cursor forgets the open input rail: the rail
+    that blocked ends up with stop=False."""
+    t = ctx.tree.ast(PLOG)
+    fn = find_function(t, "compute_generation_log")
+    starts = []
+    for i in [x for x in ast.walk(fn) if isinstance(x, ast.If)]:
+        te = src(i.test)
+        if re.search(r"event_type\s*==\s*[\"']Start(Input|Output)Rail[\"']", te):
+            for a in i.body:
+                if isinstance(a, ast.Assign) and src(a.targets[0]) == "activated_rail" and isinstance(a.value, ast.Call):
+                    saved = any(isinstance(b, (ast.If, ast.Assign, ast.Expr)) and b.lineno < a.lineno and "activated_rail" in src(b) and
+                                (("is not None" in src(b)) or ".append(activated_rail)" in src(b)) for b in i.body)
+                    starts.append((i, a, saved))
+    ctx.floor("C16.d.stop", PLOG, "Start*Rail branches that move the cursor", len(starts), 2)
+    for i, a, saved in starts:
+        if "StartOutputRail" not in src(i.test):
+            continue
+        ctx.check("C16.d.nested-rail", PLOG, "compute_generation_log", first_line(i.test, 60), saved,
+                  "an open rail is remembered before the cursor moves to the nested output rail" if saved else
+                  "`%s` overwrites the single cursor without remembering a still-open input rail: when an input rail blocks with an LLM-written refusal the output rails run inside its bracket, the cursor "
+                  "ends as None, and the input rail that blocked is logged with stop=False (only the output rail, if it also blocks, gets stop=True)" % first_line(a, 50), line=a.lineno)
+
+
+def b_retrieval_reentry(ctx, flows):
+    """`generate bot message` runs the retrieval step and the retrieval rails for EVERY bot intent.  A retrieval rail that blocks does so with a bot intent of its own
+    (`bot inform ... / stop`), which re-enters `generate bot message`: unless that re-entry is excluded the rail runs again, blocks again, ... until the event limit."""
+    gbm = [f for f in flows if f.name == "generate bot message" and f.file == rails.LLM_FLOWS]
+    rrr = [f for f in flows if f.name == "run retrieval rails" and f.file == rails.LLM_FLOWS]
+    if not gbm or not rrr:
+        raise AnalysisError("generate bot message / run retrieval rails not found", anchor=rails.LLM_FLOWS + "::generate bot message")
+    set_in_runner = {s.target for s in rrr[0].walk() if s.kind == "assign" and s.target}
+    set_in_runner -= {"i", "$i", "retrieval_flows", "$retrieval_flows"}
+
+    def guarded_calls(stmts, conds):
+        out = []
+        for s in stmts:
+            if s.kind == "do" and "run retrieval rails" in s.text:
+                out.append((s, list(conds)))
+            if s.kind == "if":
+                for cond, body in (s.branches or []):
+                    out += guarded_calls(body, conds + [cond if cond is not None else "else"])
+            elif s.body and s.kind in ("while",):
+                out += guarded_calls(s.body, conds)
+        return out
+    calls = guarded_calls(gbm[0].body, [])
+    ctx.floor("C16.b.retrieval-reentry", rails.LLM_FLOWS, "calls of the retrieval rails from `generate bot message`", len(calls), 1)
+    for s, conds in calls:
+        ok = any(any(("$" + v.lstrip("$")) in c for v in set_in_runner) for c in conds)
+        ctx.check("C16.b.retrieval-reentry", rails.LLM_FLOWS, "generate bot message", s.text, ok,
+                  "the retrieval rails are not re-entered for a bot message that a retrieval rail itself produced" if ok else
+                  "the retrieval rails run for every bot intent, including the refusal a blocking retrieval rail utters: the rail runs again for its own refusal and blocks again until "
+                  "generate_events raises 'Too many events.' - the refusal is never returned (guards: %s)" % conds, line=s.line)
+
+
+def b_event_budget(ctx):
+    """A rails-only call costs a fixed number of marker events per configured rail; the per-turn event limit must grow with the number of rails, otherwise a configuration
+    with a few more rails fails although every rail lets the text pass."""
+    RT1 = "nemoguardrails/colang/v1_0/runtime/runtime.py"
+    t = ctx.tree.ast(RT1)
+    ge = find_function(t, "generate_events", "RuntimeV1_0")
+    if ge is None:
+        raise AnalysisError("RuntimeV1_0.generate_events not found", anchor=RT1 + "::generate_events")
+    caps = [i for i in ast.walk(ge) if isinstance(i, ast.If) and "len(new_events)" in src(i.test) and any(isinstance(r, ast.Raise) for r in ast.walk(i))]
+    ctx.floor("C16.b.event-budget", RT1, "per-turn event limits", len(caps), 1)
+    for i in caps:
+        rhs = i.test.comparators[0] if isinstance(i.test, ast.Compare) else None
+        const = isinstance(rhs, ast.Constant)
+        dep = False
+        if isinstance(rhs, ast.Name):
+            defs = [a for a in ast.walk(ge) if isinstance(a, ast.Assign) and src(a.targets[0]) == rhs.id]
+            dep = any("flows" in src(a.value) and "len(" in src(a.value) for a in defs)
+        ok = dep and not const
+        ctx.check("C16.b.event-budget", RT1, "RuntimeV1_0.generate_events", first_line(i.test, 60), ok,
+                  "the event limit of a turn grows with the number of configured rails" if ok else
+                  "the event limit of a turn is the constant %s while every configured rail costs ~11 events of its own: rails=['input','output'] with 4+4 rails raises 'Too many events.' although every rail allows the text"
+                  % (src(rhs) if rhs is not None else "?"), line=i.lineno)
+
+
+def c_tracing_unwrap(ctx):
+    """With generation options the caller gets a GenerationResponse (reply + log).  The tracing code unwraps the response for callers that passed NO options (it creates
+    an options object itself); that unwrap must be conditional on exactly that, otherwise a caller's own options yield a bare message - or, in prompt mode, `response[0]`
+    of a string: the first character."""
+    t = ctx.tree.ast(LLMRAILS)
+    gen = find_function(t, "generate_async", "LLMRails")
+    unwraps = []
+    for n in ast.walk(gen):
+        if isinstance(n, (ast.Assign, ast.Return)) and n.value is not None and re.search(r"\bres\.response(\[0\])?$", src(n.value).strip()):
+            anc = []
+            p_ = getattr(n, "_parent", None)
+            while p_ is not None and p_ is not gen:
+                if isinstance(p_, ast.If):
+                    anc.append(p_)
+                p_ = getattr(p_, "_parent", None)
+            if any("tracing" in src(a.test) for a in anc):
+                unwraps.append((n, anc))
+    if not unwraps:
+        ctx.check("C16.c.tracing", LLMRAILS, "LLMRails.generate_async", "tracing does not unwrap the response", True, "no unwrap under tracing", line=gen.lineno)
+        return
+    flags = set()
+    for i in [x for x in ast.walk(gen) if isinstance(x, ast.If) and re.sub(r"\s", "", src(x.test)) == "optionsisNone"]:
+        for a in i.body:
+            if isinstance(a, ast.Assign) and isinstance(a.value, ast.Constant) and a.value.value is True:
+                flags.add(src(a.targets[0]))
+    for n, anc in unwraps:
+        ok = any(re.sub(r"\s", "", src(a.test)) in flags for a in anc)
+        ctx.check("C16.c.tracing", LLMRAILS, "LLMRails.generate_async", first_line(n, 60), ok,
+                  "the response is unwrapped only when the options object was created for the tracing itself" if ok else
+                  "with tracing enabled `%s` runs although the caller passed generation options: the requested log is dropped, and in prompt mode the reply is `response[0]` of a string - its first character" % first_line(n, 50),
+                  line=n.lineno)
